@@ -42,7 +42,8 @@ func injCatalogue(seed int64, nSoup int) []injection {
 	}
 	for _, n := range []struct{ id, text string }{
 		{"style_noarg", ":style"}, {"style_bogus", ":style bogus"}, {"match_noarg", ":match"}, {"match_bogus", ":match bogus"},
-		{"recv_noarg", ":recv"}, {"recv_badident", ":recv 1x"}, {"skip_noarg", ":skip"}, {"skip_badregexp", ":skip /[/"},
+		{"recv_noarg", ":recv"}, {"recv_badident", ":recv 1x"}, {"recv_keyword", ":recv type"}, {"recv_keyword_func", ":recv func"},
+		{"recv_blank", ":recv _"}, {"recv_unicode", ":recv ñ"}, {"recv_same_as_dst", ":recv dst"}, {"skip_noarg", ":skip"}, {"skip_badregexp", ":skip /[/"},
 		{"skip_openslash", ":skip /abc"}, {"map_one", ":map A"}, {"map_none", ":map"}, {"conv_one", ":conv CvOK"}, {"conv_none", ":conv"},
 		{"lit_one", ":literal A"}, {"lit_none", ":literal"}, {"pre_none", ":preprocess"}, {"post_none", ":postprocess"},
 		{"unknown", ":frobnicate x y"}, {"convergen_on_method", ":convergen"}, {"case_arg", ":case:off junk"}, {"colon_only", ":"},
